@@ -228,6 +228,14 @@ def run(ctx: Context, rep) -> None:
     # nothing read from the dataset's files / the environment is memoised
     from sa.rules import shared as _shm
     _shm.check_no_memo(ctx, rep, "C12.memo")
+    # the same selection yields the same shards in every interface: the
+    # unshuffled concurrent batches cover the stream (same check as
+    # C02.batch) and the walk that feeds the selection is the recorded order
+    # (same check as C02.walk)
+    from sa.rules import shared as _sh12
+    _sh12.share_rules(ctx, rep, "c02", {"C02.batch": "C12.batch",
+                                        "C02.walk": "C12.walk"})
+    _shm.check_log_args_pure(ctx, rep, "C12.log")
 
 def check_select(ctx: Context, rep, sel) -> None:
     cfg = ctx.cfg(sel)
